@@ -56,7 +56,7 @@ PROPS = {
         ],
     },
     "C11": {
-        "units": ["account", "acctproto", "acctstore", "texts", "storage", "cfgwire"],
+        "units": ["account", "acctproto", "acctstore", "texts", "storage", "cfgwire", "issue", "http"],
         "design_ref": "DESIGN.md section 5 C11",
         "technique": "Verus function contracts over a ghost record of what the CA holds; signing-key preconditions on the account requests",
         "text": "Deductive proof that synchronize registers only when no account URL is stored or the external binding changed, otherwise sends at "
@@ -219,7 +219,7 @@ PROPS = {
         "assumptions": [
             "T: ASN1_TIME_diff returns days*86400+secs = notAfter-now with |secs| < 86400; SAN extraction by OpenSSL (cert_san); rand::gen_range stays in its range",
             "T: HashSet<String> operations as stated in prelude/titer3.rs",
-            "X: black-box timing; the textual form of SAN entries (IP rendering in subject_alt_names)",
+            "T: the canonical text of an IP address (IpAddr Display) and OpenSSL's GeneralName accessors; X509Certificate::subject_alt_names is verified: its result is every dNSName and every iPAddress entry as text, and nothing else (cert_san of unit schedule stands for that set)", "X: black-box timing",
         ],
     },
     "C07": {
